@@ -40,11 +40,11 @@ func (i oracleImpl) Raw() string    { return i.ch.F.LastRaw }
 
 type bridgeImpl struct{ p *bridge.Pair }
 
-func (i bridgeImpl) Fork() walk.Impl                         { return bridgeImpl{i.p.Fork()} }
+func (i bridgeImpl) Fork() walk.Impl                      { return bridgeImpl{i.p.Fork()} }
 func (i bridgeImpl) Exec(e absx.M) (bool, absx.M, string) { return i.p.Exec(e) }
-func (i bridgeImpl) Project() absx.M                         { return i.p.Project() }
-func (i bridgeImpl) Digest() string                          { return i.p.Digest() }
-func (i bridgeImpl) Raw() string                             { return i.p.Raw() }
+func (i bridgeImpl) Project() absx.M                      { return i.p.Project() }
+func (i bridgeImpl) Digest() string                       { return i.p.Digest() }
+func (i bridgeImpl) Raw() string                          { return i.p.Raw() }
 
 type l2Impl struct{ ch *l2.Chain }
 
@@ -119,7 +119,11 @@ func l2Cfg(meta absx.M) l2.RunCfg {
 		sort.Strings(out)
 		return out
 	}
-	return l2.RunCfg{Accts: strs(meta["accts"]), Denoms: strs(meta["denoms"]), Funded: absx.Map(meta["funded"]), Params: absx.Map(meta["params"]), Devs: strs(meta["devs"])}
+	cfg := l2.RunCfg{Accts: strs(meta["accts"]), Denoms: strs(meta["denoms"]), Funded: absx.Map(meta["funded"]), Params: absx.Map(meta["params"]), Devs: strs(meta["devs"])}
+	if pm, ok := meta["premeta"]; ok {
+		cfg.PreMeta = strs(pm)
+	}
+	return cfg
 }
 
 func parseScale(s string) *big.Int {
